@@ -624,7 +624,7 @@ func c09IsFieldAddrOf(v ssa.Value, named *types.Named, field string) bool {
 		return false
 	}
 	st, ok := named.Underlying().(*types.Struct)
-	return ok && fa.Field < st.NumFields() && st.Field(fa.Field).Name() == field
+	return ok && fa.Field < st.NumFields() && st.Field(fa.Field).Name() == c09FieldRole(named, field)
 }
 
 // c09IsLoadOfField: every root of v is a load of <named>.<field>.
@@ -647,6 +647,7 @@ func c09HasField(named *types.Named, field string) bool {
 	if !ok {
 		return false
 	}
+	field = c09FieldRole(named, field)
 	for i := 0; i < st.NumFields(); i++ {
 		if st.Field(i).Name() == field {
 			return true
